@@ -40,7 +40,7 @@ func loadProg(repo, tags string) (*Prog, []string) {
 	fset := token.NewFileSet()
 	env := append(os.Environ(), "GOFLAGS=-mod=mod", "GOPROXY=off", "GOSUMDB=off", "GOWORK=off", "GOTOOLCHAIN=local")
 	cfg := &packages.Config{
-		Mode:  packages.LoadAllSyntax,
+		Mode:  packages.LoadAllSyntax | packages.NeedModule,
 		Dir:   repo,
 		Fset:  fset,
 		Env:   env,
